@@ -17,6 +17,7 @@ type M struct {
 	T int    `json:"t"` // 0 = , 1 != , 2 =~ , 3 !~   (labels.MatchType)
 	N []byte `json:"n"`
 	V []byte `json:"v"`
+	F string `json:"f,omitempty"` // cfg cases: the YAML form the matcher is written in: matchers | match | match_re
 }
 
 type KV struct {
@@ -25,19 +26,24 @@ type KV struct {
 }
 
 type Case struct {
-	Kind  string `json:"kind"` // match | site | sil | print | parse
-	Show  string `json:"show,omitempty"`
-	MSS   [][]M  `json:"mss,omitempty"`   // match
-	LS    []KV   `json:"ls,omitempty"`    // match, site
-	M     *M     `json:"m,omitempty"`     // site
-	MS    []M    `json:"ms,omitempty"`    // print
-	Input []byte `json:"input,omitempty"` // parse
-	Src   string `json:"src,omitempty"`   // parse: which generator produced the input
-	Sils  [][][]M `json:"sils,omitempty"` // siln: several silences, each a list of matcher sets
-	LSS   [][]KV  `json:"lss,omitempty"`  // api: the alerts of one request, in request order
+	Kind  string  `json:"kind"` // match | site | sil | print | parse
+	Show  string  `json:"show,omitempty"`
+	MSS   [][]M   `json:"mss,omitempty"`      // match
+	LS    []KV    `json:"ls,omitempty"`       // match, site
+	M     *M      `json:"m,omitempty"`        // site
+	MS    []M     `json:"ms,omitempty"`       // print
+	Input []byte  `json:"input,omitempty"`    // parse
+	Src   string  `json:"src,omitempty"`      // parse: which generator produced the input
+	Sils  [][][]M `json:"sils,omitempty"`     // siln: several silences, each a list of matcher sets
+	LSS   [][]KV  `json:"lss,omitempty"`      // api: the alerts of one request, in request order; cfg: the targets
+	RSrc  []M     `json:"rule_src,omitempty"` // cfg: source side of the inhibition rule
+	RTgt  []M     `json:"rule_tgt,omitempty"` // cfg: target side
+	Rt    []M     `json:"route,omitempty"`    // cfg: the child route's matchers
 }
 
-func showM(m M) string { return fmt.Sprintf("%q %s %q", m.N, []string{"=", "!=", "=~", "!~"}[m.T], m.V) }
+func showM(m M) string {
+	return fmt.Sprintf("%q %s %q", m.N, []string{"=", "!=", "=~", "!~"}[m.T], m.V)
+}
 
 func TestCheck(t *testing.T) {
 	env := vh.GetEnv()
@@ -68,6 +74,8 @@ func TestCheck(t *testing.T) {
 			runSilN(run, c)
 		case "api":
 			runAPI(t, run, c)
+		case "cfg":
+			runCfg(t, run, c)
 		case "print":
 			runPrint(run, c)
 		case "parse":
@@ -88,6 +96,7 @@ const rule = "match: 1-3 matcher lists x label sets over small name/value/patter
 	"siln: 2-3 silences alive at once whose matchers collide on their unquoted text (value starting with ~ = !, name/value splits), checked after Set, after snapshot + restart, and in a second store after ONE Merge of the full state, by Query(QMatches) per silence and Silencer.Mutes; " +
 	"api: one GET /api/v2/alerts and one /alerts/groups request through the real handler over 2-4 alerts with differing label names, in the given and the reverse order, each alert's verdict compared; " +
 	"regexp shapes (literal, .*, .+, lit.*, .*lit, .*lit.*, ...) against values with newlines / CR / control characters / empty in every semantics case; " +
+	"cfg: a YAML configuration with one inhibition rule and one child route whose matchers are written as source_matchers/target_matchers/matchers and as the deprecated source_match, source_match_re, target_match, target_match_re, match, match_re (mixed), loaded by config.Load; both sides of inhibit.NewInhibitRule on the source alert and on 2-4 targets, the real Inhibitor (source alert firing, equal = []) asked Mutes for each target, dispatch.NewRoute matching each target; " +
 	"print: matcher lists over an alphabet rich in quotes, backslashes, newlines, braces, commas, operators, blanks, NUL, multi-byte and invalid UTF-8 -> String() -> every parser; " +
 	"list stress: 2-4 matcher lists whose non-last values end in one or two backslashes or carry a quote / escaped quote / escaped backslash right before the separating comma, printed then parsed in every mode, plus raw lists of the same shapes (histogram classic_split_stress); " +
 	"parse: raw inputs (grammar-directed + mutated seeds) through labels.ParseMatcher(s), parse.Matcher(s), compat.Matcher(s) in classic/utf8-strict/fallback mode; " +
